@@ -91,9 +91,13 @@ std::string shapeContent(NifFile& nif, NiShape* s, bool withNormals) {
 }
 
 // parallel walk over child references: same type, same canonical content
-std::string compareSubgraph(NifFile& srcNif, NiObject* a, NifFile& dstNif, NiObject* b, int depth, std::set<NiObject*>& seen, bool isTop) {
+// pairs: source block -> its clone, for every block met on the walk (used for the pointer check)
+std::string compareSubgraph(NifFile& srcNif, NiObject* a, NifFile& dstNif, NiObject* b, int depth, std::set<NiObject*>& seen, bool isTop,
+							std::map<NiObject*, NiObject*>* pairs = nullptr) {
 	if (!seen.insert(b).second || depth > 12)
 		return "";
+	if (pairs)
+		(*pairs)[a] = b;
 	if (std::string(a->GetBlockName()) != b->GetBlockName())
 		return std::string("type differs: ") + a->GetBlockName() + " vs " + b->GetBlockName();
 	auto& sh = srcNif.GetHeader();
@@ -128,11 +132,99 @@ std::string compareSubgraph(NifFile& srcNif, NiObject* a, NifFile& dstNif, NiObj
 			return std::string(a->GetBlockName()) + ": a child reference of the clone (" + std::to_string(fb[i]) + ") does not resolve inside the destination";
 		if (&srcNif == &dstNif && ca == cb)
 			return std::string(a->GetBlockName()) + ": the clone shares child block " + std::to_string(fb[i]) + " (" + cb->GetBlockName() + ") with the source";
-		std::string e = compareSubgraph(srcNif, ca, dstNif, cb, depth + 1, seen, false);
+		std::string e = compareSubgraph(srcNif, ca, dstNif, cb, depth + 1, seen, false, pairs);
 		if (!e.empty())
 			return e;
 	}
 	return "";
+}
+
+// Back pointers (controller targets, ...): a pointer of a cloned block whose source counterpart points at
+// a block inside the cloned sub-graph must point at that block's clone; any other pointer must be empty
+// or resolve inside the destination.
+std::string comparePointers(NifFile& srcNif, NifFile& dstNif, const std::map<NiObject*, NiObject*>& pairs) {
+	auto& sh = srcNif.GetHeader();
+	auto& dh = dstNif.GetHeader();
+	for (auto& kv : pairs) {
+		// bone pointers of skin instances are rebuilt from names (checked separately)
+		if (kv.first->HasType<NiBoneContainer>())
+			continue;
+		std::set<NiRef*> unorderedA, unorderedB;
+		kv.first->GetPtrs(unorderedA);
+		kv.second->GetPtrs(unorderedB);
+		if (unorderedA.size() != unorderedB.size())
+			continue;
+		// GetPtrs gives a set ordered by address: member order inside equal-typed objects is the same on both sides
+		std::vector<NiRef*> pa(unorderedA.begin(), unorderedA.end()), pb(unorderedB.begin(), unorderedB.end());
+		auto rel = [](std::vector<NiRef*>& v, NiObject* base) {
+			std::sort(v.begin(), v.end(), [base](NiRef* x, NiRef* y) {
+				return reinterpret_cast<char*>(x) - reinterpret_cast<char*>(base) < reinterpret_cast<char*>(y) - reinterpret_cast<char*>(base);
+			});
+		};
+		rel(pa, kv.first);
+		rel(pb, kv.second);
+		// only pointers stored inside the object itself can be matched by offset
+		for (size_t i = 0; i < pa.size(); i++) {
+			ptrdiff_t oa = reinterpret_cast<char*>(pa[i]) - reinterpret_cast<char*>(kv.first);
+			ptrdiff_t ob = reinterpret_cast<char*>(pb[i]) - reinterpret_cast<char*>(kv.second);
+			if (oa != ob || oa < 0 || oa > 4096)
+				continue;
+			NiObject* ta = pa[i]->IsEmpty() ? nullptr : sh.GetBlock<NiObject>(pa[i]->index);
+			NiObject* tb = pb[i]->IsEmpty() ? nullptr : dh.GetBlock<NiObject>(pb[i]->index);
+			if (!pb[i]->IsEmpty() && !tb)
+				return std::string(kv.second->GetBlockName()) + ": a pointer of the clone (" + std::to_string(pb[i]->index) + ") does not resolve inside the destination";
+			auto it = ta ? pairs.find(ta) : pairs.end();
+			if (it != pairs.end() && tb != it->second)
+				return std::string(kv.second->GetBlockName()) + ": a back pointer that targets " + ta->GetBlockName() + " inside the cloned sub-graph targets "
+					   + (tb ? std::string(tb->GetBlockName()) + " (block " + std::to_string(pb[i]->index) + ")" : std::string("nothing")) + " in the clone instead of that block's clone";
+		}
+	}
+	return "";
+}
+
+// 1-3 chained float controllers on the shape's shader (each targets the shader and has its own
+// interpolator + data), the way animated glow / alpha fades are stored
+uint32_t attachShaderControllers(NifFile& nif, NiShape* shape, uint32_t n) {
+	auto& hdr = nif.GetHeader();
+	auto shader = nif.GetShader(shape);
+	if (!shader || !shader->controllerRef.IsEmpty())
+		return 0;
+	const bool lighting = shader->HasType<BSLightingShaderProperty>();
+	if (!lighting && !shader->HasType<BSEffectShaderProperty>())
+		return 0;
+	const uint32_t shaderId = nif.GetBlockID(shader);
+	uint32_t prev = NIF_NPOS, first = NIF_NPOS;
+	for (uint32_t i = 0; i < n; i++) {
+		auto data = std::make_unique<NiFloatData>();
+		auto interp = std::make_unique<NiFloatInterpolator>();
+		interp->floatValue = 0.25f * static_cast<float>(i + 1);
+		interp->dataRef.index = hdr.AddBlock(std::move(data));
+		uint32_t interpId = hdr.AddBlock(std::move(interp));
+		uint32_t id;
+		if (lighting) {
+			auto c = std::make_unique<BSLightingShaderPropertyFloatController>();
+			c->typeOfControlledVariable = i;
+			c->targetRef.index = shaderId;
+			c->interpolatorRef.index = interpId;
+			c->stopTime = 1.0f + static_cast<float>(i);
+			id = hdr.AddBlock(std::move(c));
+		}
+		else {
+			auto c = std::make_unique<BSEffectShaderPropertyFloatController>();
+			c->typeOfControlledVariable = i;
+			c->targetRef.index = shaderId;
+			c->interpolatorRef.index = interpId;
+			c->stopTime = 1.0f + static_cast<float>(i);
+			id = hdr.AddBlock(std::move(c));
+		}
+		if (prev == NIF_NPOS)
+			first = id;
+		else
+			hdr.GetBlock<NiTimeController>(prev)->nextControllerRef.index = id;
+		prev = id;
+	}
+	nif.GetShader(shape)->controllerRef.index = first;
+	return n;
 }
 
 Verdict prop(Tape& t, Run& run) {
@@ -170,6 +262,22 @@ Verdict prop(Tape& t, Run& run) {
 	}
 	NiShape* srcShape = shapes[t.u8() % shapes.size()];
 	const std::string srcName = srcShape->name.get();
+	{
+		// sometimes an animated shader: a chain of controllers that all point back at the shader
+		uint8_t c = t.u8();
+		if ((c & 3) == 3) {
+			uint32_t n = attachShaderControllers(*srcNif, srcShape, 1 + (c >> 2) % 3);
+			if (n) {
+				desc += " +shader-controllers(" + std::to_string(n) + ")";
+				run.cls("shader-controller-chain:" + std::to_string(n));
+				if (fromFile) {
+					// the file the "other model" is loaded from is this edited model
+					fileBytes.clear();
+					saveBytes(*srcNif, fileBytes, rawOpts());
+				}
+			}
+		}
+	}
 
 	// destination
 	const uint8_t destKind = t.u8() % 3;
@@ -229,9 +337,13 @@ Verdict prop(Tape& t, Run& run) {
 			return run.fail("C14:content:" + destName, detail("clone differs from the source: " + batteryDiff(want, got)));
 		// (references resolve inside the destination to equal content)
 		std::set<NiObject*> seen;
-		std::string e = compareSubgraph(*srcNif, srcShape, *dst, clone, 0, seen, true);
+		std::map<NiObject*, NiObject*> pairs;
+		std::string e = compareSubgraph(*srcNif, srcShape, *dst, clone, 0, seen, true, &pairs);
 		if (!e.empty())
 			return run.fail("C14:subgraph:" + destName, detail(e));
+		e = comparePointers(*srcNif, *dst, pairs);
+		if (!e.empty())
+			return run.fail("C14:back-pointer:" + destName, detail(e));
 		// (bones exist in the destination)
 		std::vector<std::string> bones;
 		dst->GetShapeBoneList(clone, bones);
